@@ -95,7 +95,14 @@ def check(case, ctx):
             pubs.append(t_now)
             continue
         if not pubs:
-            continue
+            # a pull before anything was published fails and is not a request the delay-to-pull adapter may count
+            try:
+                inp.pull_data(hs.T0 + timedelta(minutes=17 * (op[1] + 1)))
+            except fm.FinamNoDataError:
+                ctx.event("failed-pull-before-first-publication")
+                continue
+            ctx.violation("pull-before-data", f"chain {chain}: pull before any publication did not raise FinamNoDataError")
+            return
         newest = pubs[-1]
         t = last + (newest - last) * op[1] / op[2]
         t = max(last, min(t, newest))
@@ -170,7 +177,7 @@ def case_st(draw):
         chain.append(draw(delay_st))
     if draw(st.booleans()):
         chain.append(draw(pass_st))
-    ops = [["push", 0]]
+    ops = [["pull", k, 1, 0] for k in range(draw(st.sampled_from([0, 0, 1, 2])))] + [["push", 0]]
     for _ in range(draw(st.integers(4, 30))):
         if draw(st.integers(0, 9)) < 4:
             ops.append(["push", draw(st.one_of(st.sampled_from([30, 60, 90, 1440, 4000]), st.integers(1, 300)))])
